@@ -87,11 +87,12 @@ RECURSIVE NormF(_, _)
 NormF(n, e) == IF e > 0 /\ n % 2 = 0 THEN NormF(n \div 2, e - 1) ELSE F(n, e)
 FAdd(x, y) == LET e == IF x.fe > y.fe THEN x.fe ELSE y.fe IN
               NormF(x.fn * Pow2(e - x.fe) + y.fn * Pow2(e - y.fe), e)
-FNeg(x) == F(-x.fn, x.fe)
-FSub(x, y) == FAdd(x, FNeg(y))
-FMul(x, y) == NormF(x.fn * y.fn, x.fe + y.fe)
+\* IEEE-754 has a negative zero, dyadic rationals do not: operations whose IEEE result is -0 are outside the model
+FNeg(x) == IF x.fn = 0 THEN Unspec ELSE F(-x.fn, x.fe)
+FSub(x, y) == FAdd(x, F(-y.fn, y.fe))
+FMul(x, y) == IF (x.fn = 0 /\ y.fn < 0) \/ (y.fn = 0 /\ x.fn < 0) THEN Unspec ELSE NormF(x.fn * y.fn, x.fe + y.fe)
 \* x / y is modelled only when the quotient is again a short dyadic rational
-FDiv(x, y) == IF y.fn = 0 THEN Unspec
+FDiv(x, y) == IF y.fn = 0 \/ (x.fn = 0 /\ y.fn < 0) THEN Unspec
               ELSE LET num == x.fn * Pow2(y.fe)      \* x / y = (x.fn * 2^y.fe) / (y.fn * 2^x.fe)
                        an == IF y.fn < 0 THEN -y.fn ELSE y.fn
                        sg == IF y.fn < 0 THEN -1 ELSE 1 IN
